@@ -9,7 +9,8 @@ import (
 )
 
 // ATree is an abstract value tree printed by TLC:
-//   ["s", class] ["n", class] ["l", literal] ["L", [trees]] ["O", [[keyclass, tree], ...]]
+//
+//	["s", class] ["n", class] ["l", literal] ["L", [trees]] ["O", [[keyclass, tree], ...]]
 type ATree struct {
 	Kind  string // s n l L O
 	Class string
